@@ -62,7 +62,7 @@ def fit(pattern, rng):
     return "".join(rng.choice(gen.IUPAC[c]) for c in pattern)
 
 
-def level_recipe(triple, rng, nmods=None, module_override=None, ovh_override=None):
+def level_recipe(triple, rng, nmods=None, module_override=None, ovh_override=None, named_after_insert=False):
     kit, vname, mname, nname = triple
     vspec, mspec, nspec = ({"kit": kit, "name": n} for n in (vname, mname, nname))
     vcls, mcls, ncls = classes.build(vspec), classes.build(mspec), classes.build(nspec)
@@ -116,7 +116,7 @@ def level_recipe(triple, rng, nmods=None, module_override=None, ovh_override=Non
                             cite_some({"id": ("ins%d" % (i + 1)) if not same_id else same_id, "seq": gen.rotate(m, rng.randrange(len(m)))}, rng, cited)
                             for i, m in enumerate(mods)],
                 # (a product is often given the name of the part it was built around)
-                "id": ("lvl%d" % rng.randrange(100000)) if rng.random() < 0.75 else ("ins1" if not same_id else same_id), "name": "lvl"}
+                "id": ("lvl%d" % rng.randrange(100000)) if (rng.random() < 0.75 and not named_after_insert) else ("ins1" if not same_id else same_id), "name": "lvl"}
     return None
 
 
@@ -200,7 +200,7 @@ def two_level(run, provenance=False):
             ovh = None
             origins = []
             for t in chain:
-                r = level_recipe(t, rng, nmods=1, module_override=module, ovh_override=ovh)
+                r = level_recipe(t, rng, nmods=1, module_override=module, ovh_override=ovh, named_after_insert=(chain is chains[0] and module is None))
                 if r is None:
                     break
                 tr = exec_level(r)
